@@ -266,7 +266,8 @@ func isTempError(err error) bool {
 	if rootErr != nil {
 		err = rootErr
 	}
-	return err.Error()[0] == '4'
+	errText := err.Error()
+	return len(errText) > 0 && errText[0] == '4'
 }
 
 func errorCode(err error) int {
@@ -274,11 +275,15 @@ func errorCode(err error) int {
 	if rootErr != nil {
 		err = rootErr
 	}
-	firstrune := err.Error()[0]
+	errText := err.Error()
+	if len(errText) < 3 {
+		return 0
+	}
+	firstrune := errText[0]
 	if firstrune < 52 || firstrune > 53 {
 		return 0
 	}
-	code := err.Error()[0:3]
+	code := errText[0:3]
 	errcode, cerr := strconv.Atoi(code)
 	if cerr != nil {
 		return 0
@@ -293,6 +298,9 @@ func enhancedStatusCode(err error, supported bool) string {
 	rootErr := errors.Unwrap(err)
 	if rootErr != nil {
 		err = rootErr
+	}
+	if len(err.Error()) == 0 {
+		return ""
 	}
 	firstrune := err.Error()[0]
 	if firstrune != 50 && firstrune != 52 && firstrune != 53 {
